@@ -60,10 +60,16 @@ def main():
             rc, out = sh("go test -vet=off -count=1 -run 'TestSeededDemo' ./...", cwd=wt, env=dict(ENV, GOFLAGS=""))
             res["demo_fails_with_change"] = rc != 0
             res["demo_output"] = out[-600:]
-            sh(["git", "stash", "-q"], cwd=wt)
+            # (no `git stash`: the stash is shared by all worktrees of a repository)
+            sh(["git", "apply", "-R", os.path.join(seed, "patch.diff")], cwd=wt)
             rc, out = sh("go test -vet=off -count=1 -run 'TestSeededDemo' ./...", cwd=wt, env=dict(ENV, GOFLAGS=""))
             res["demo_passes_without_change"] = rc == 0
-            sh(["git", "stash", "pop", "-q"], cwd=wt)
+            rc2, out2 = sh(["git", "apply", os.path.join(seed, "patch.diff")], cwd=wt)
+            res["reapplied"] = rc2 == 0
+        # the tree the checks run against must hold exactly this change
+        rc, out = sh(["git", "diff"], cwd=wt)
+        res["tree_holds_exactly_the_patch"] = out.strip() == open(os.path.join(seed, "patch.diff")).read().strip() or sh(["git", "apply", "-R", "--check", os.path.join(seed, "patch.diff")], cwd=wt)[0] == 0
+        if os.path.exists(os.path.join(wt, "seeded_demo_test.go")):
             os.remove(os.path.join(wt, "seeded_demo_test.go"))
         # the checks
         envc = dict(os.environ, VERIF_REPO=wt)
